@@ -334,6 +334,7 @@ def prove(ctx, modules, theorems, note_modules=None):
     hits = lean_forbidden_scan()
     if hits:
         ctx.obligation_failed("no-sorry-scan", "; ".join(hits[:5]))
+    modules = sorted(set(modules) | {m for m, _ in theorems})
     ok, out = lean_build(modules)
     ctx.cov["obligations"] += len(theorems)
     ctx.cov["checker_cmd"] = "cd /verif/lean && lake build %s && lake env lean <#print axioms of each theorem>" % " ".join(modules)
